@@ -77,6 +77,8 @@ class ParsedContract(object):
         self.autosplit = None
         self.entry_hints = []
         self.options = {}
+        self.ghost_bindings = {}
+        self.canaries = []
         self.pre = []           # ordered entry clauses: requires / split / use / unfold
         for kind, call in clauses:
             if kind in ('requires', 'split', 'use', 'unfold'):
@@ -114,6 +116,13 @@ class ParsedContract(object):
                 self.loop(call.args[0]).hints.append((ast.literal_eval(call.args[1]), call.args[2]))
             elif kind == 'unroll':
                 self.loop(call.args[0]).unroll = ast.literal_eval(call.args[1])
+            elif kind == 'ghost':
+                # ghost('callee contract name', name=expr, ...): instantiation of the
+                # callee's ghost parameters at its call sites inside this unit
+                nm = ast.literal_eval(call.args[0])
+                self.ghost_bindings.setdefault(nm, {}).update({k.arg: k.value for k in call.keywords})
+            elif kind == 'canary':
+                self.canaries.append(call.args[0])
             elif kind == 'option':
                 for k in call.keywords:
                     self.options[k.arg] = ast.literal_eval(k.value)
@@ -169,27 +178,88 @@ class UnitResult(object):
         self.reachable_exits = 0
 
 
+class ModelView(object):
+    """Uniform access to a counter-model: a z3 model or values parsed from an
+    external solver's get-value output."""
+
+    def __init__(self, z3model=None, table=None):
+        self.m = z3model
+        self.table = table or {}
+
+    def int(self, t):
+        if self.m is not None:
+            r = self.m.eval(t, model_completion=True)
+            return r.as_long() if z3.is_int_value(r) else 0
+        v = self.table.get(t.sexpr())
+        return v if isinstance(v, int) and not isinstance(v, bool) else 0
+
+    def bool(self, t):
+        if self.m is not None:
+            return z3.is_true(self.m.eval(t, model_completion=True))
+        return bool(self.table.get(t.sexpr()))
+
+    def seq(self, t):
+        if self.m is not None:
+            n = self.m.eval(z3.Length(t), model_completion=True)
+            n = n.as_long() if z3.is_int_value(n) else 0
+            out = []
+            for k in range(min(n, 100000)):
+                e = self.m.eval(t[k], model_completion=True)
+                out.append(e.as_long() if z3.is_int_value(e) else 0)
+            return out
+        v = self.table.get(t.sexpr())
+        return [x if isinstance(x, int) else 0 for x in v] if isinstance(v, list) else []
+
+    def __str__(self):
+        if self.m is not None:
+            return str(self.m)
+        return str(self.table)
+
+
+def input_terms(v, heap, out):
+    """z3 terms whose values determine the concrete input v."""
+    if isinstance(v, (SInt, SBool, SSeq)):
+        out.append(v.t)
+    elif isinstance(v, Ref) and heap is not None and v.id in heap:
+        c = heap[v.id]
+        if isinstance(c, StreamCell):
+            out.extend([c.data, c.pos])
+        elif isinstance(c, BACell):
+            out.append(c.t)
+        elif isinstance(c, ListCell):
+            if c.items is not None:
+                for x in c.items:
+                    input_terms(x, heap, out)
+            elif c.ek is KINT:
+                out.append(c.t)
+        elif isinstance(c, DictCell):
+            for x in c.d.values():
+                input_terms(x, heap, out)
+    elif isinstance(v, tuple):
+        for x in v:
+            input_terms(x, heap, out)
+
+
 def term_to_py(m, v, heap=None):
-    """Concretise a value under model m (for replay)."""
+    """Concretise a value under ModelView m (for replay)."""
     if isinstance(v, Ref) and heap is not None and v.id in heap:
         c = heap[v.id]
         if isinstance(c, StreamCell):
-            d = seq_model(m, c.data)
-            p = m.eval(c.pos, model_completion=True)
-            return {'__stream__': [x % 256 for x in d], 'pos': p.as_long() if z3.is_int_value(p) else 0}
+            return {'__stream__': [x % 256 for x in m.seq(c.data)], 'pos': m.int(c.pos)}
         if isinstance(c, BACell):
-            return {'__bytes__': [x % 256 for x in seq_model(m, c.t)], 'cls': 'builtins:bytearray'}
+            return {'__bytes__': [x % 256 for x in m.seq(c.t)], 'cls': 'builtins:bytearray'}
         if isinstance(c, ListCell) and c.items is not None:
             return {'__list__': [term_to_py(m, x, heap) for x in c.items]}
         if isinstance(c, ListCell) and c.ek is KINT:
-            return {'__list__': seq_model(m, c.t)}
+            return {'__list__': m.seq(c.t)}
+        if isinstance(c, DictCell):
+            return {'__dict__': {k: term_to_py(m, x, heap) for k, x in c.d.items()}}
     if isinstance(v, SInt):
-        r = m.eval(v.t, model_completion=True)
-        return r.as_long() if z3.is_int_value(r) else 0
+        return m.int(v.t)
     if isinstance(v, SBool):
-        return z3.is_true(m.eval(v.t, model_completion=True))
+        return m.bool(v.t)
     if isinstance(v, SSeq):
-        ints = seq_model(m, v.t)
+        ints = m.seq(v.t)
         if issubclass(v.cls, str):
             return ''.join(chr(x % 0x110000) for x in ints)
         return {'__bytes__': [x % 256 for x in ints], 'cls': v.cls.__module__ + ':' + v.cls.__qualname__}
@@ -204,67 +274,61 @@ def term_to_py(m, v, heap=None):
     return {'__unsupported__': repr(v)}
 
 
-def seq_model(m, t):
-    n = m.eval(z3.Length(t), model_completion=True)
-    n = n.as_long() if z3.is_int_value(n) else 0
-    out = []
-    for k in range(min(n, 100000)):
-        e = m.eval(t[k], model_completion=True)
-        out.append(e.as_long() if z3.is_int_value(e) else 0)
-    return out
-
-
-def discharge(ob, timeout_ms=None, want_model=True):
+def discharge(ob, timeout_ms=None):
+    from . import solver
     rec = ObRecord(ob)
     t0 = time.time()
     g = ob.goal
     if z3.is_true(g):
         rec.status, rec.backend = 'discharged', 'simplifier'
         return rec
-    s = z3.Solver()
-    set_budget(s, timeout_ms or Z3_TIMEOUT_MS)
-    for p in ob.pc:
-        s.add(p)
-    s.add(z3.Not(g))
-    r = s.check()
-    rec.time = time.time() - t0
-    if r == z3.unsat:
-        rec.status, rec.backend = 'discharged', 'z3'
-        return rec
-    if r == z3.sat:
-        rec.status, rec.backend = 'refuted', 'z3'
-        rec.model = s.model()
-        return rec
-    # unknown: second opinion from cvc5 on the exported SMT-LIB
-    rec.detail = 'z3: %s' % s.reason_unknown()
-    try:
-        smt = s.to_smt2()
-        r2 = run_cvc5(smt, (timeout_ms or Z3_TIMEOUT_MS) // 1000 + 1)
-        if r2 == 'unsat':
-            rec.status, rec.backend = 'discharged', 'cvc5'
-            rec.time = time.time() - t0
+    ms = timeout_ms or Z3_TIMEOUT_MS
+    assertions = list(ob.pc) + [z3.Not(g)]
+    if not ob.seq:
+        s = z3.Solver()
+        set_budget(s, ms)
+        for a in assertions:
+            s.add(a)
+        r = s.check()
+        rec.time = time.time() - t0
+        if r == z3.unsat:
+            rec.status, rec.backend = 'discharged', 'z3'
             return rec
-        rec.detail += '; cvc5: %s' % r2
-    except Exception as e:      # pragma: no cover
-        rec.detail += '; cvc5 error %r' % (e,)
-    rec.status, rec.backend = 'unknown', None
+        if r == z3.sat:
+            rec.status, rec.backend = 'refuted', 'z3'
+            rec.model = ModelView(z3model=s.model())
+            return rec
+        rec.detail = 'z3: %s' % s.reason_unknown()
+    # sequence obligations (and arithmetic unknowns): external solvers, hard limits
+    txt = solver.smt2_text(assertions)
+    r, rest_, backend = solver.portfolio(txt, ms)
+    if r not in ('sat', 'unsat'):
+        rec.detail += ' cvc5+z3: unknown/timeout'
+        if os.environ.get('PYVC_KEEP'):
+            open(os.path.join(os.environ['PYVC_KEEP'], 'fail_%d.smt2' % abs(hash(txt))), 'w').write(txt)
     rec.time = time.time() - t0
+    if r == 'unsat':
+        rec.status, rec.backend = 'discharged', backend
+        return rec
+    if r == 'sat':
+        rec.status, rec.backend = 'refuted', backend
+        terms = []
+        for v in (ob.inputs or {}).values():
+            input_terms(v, ob.heap, terms)
+        table = {}
+        if terms:
+            txt2 = solver.smt2_text(assertions, values=terms)
+            for runner in (solver.run_cvc5, solver.run_z3bin):
+                r2, rest = runner(txt2, ms)
+                if r2 == 'sat':
+                    vals = solver.parse_values(rest, len(terms))
+                    if vals is not None:
+                        table = {t.sexpr(): v for t, v in zip(terms, vals)}
+                        break
+        rec.model = ModelView(table=table)
+        return rec
+    rec.status, rec.backend = 'unknown', None
     return rec
-
-
-def run_cvc5(smt, tlimit_s):
-    with tempfile.NamedTemporaryFile('w', suffix='.smt2', delete=False, dir=os.environ.get('PYVC_TMP', None)) as f:
-        f.write('(set-logic ALL)\n' + smt)
-        fn = f.name
-    try:
-        p = subprocess.run([CVC5, '--strings-exp', '--tlimit=%d' % (tlimit_s * 1000), fn],
-                           capture_output=True, text=True, timeout=tlimit_s + 10)
-        out = (p.stdout or '').strip().splitlines()
-        return out[0] if out else 'error: ' + (p.stderr or '')[:200]
-    except subprocess.TimeoutExpired:
-        return 'timeout'
-    finally:
-        os.unlink(fn)
 
 
 class ContractUse(object):
@@ -274,19 +338,50 @@ class ContractUse(object):
         self.cdef = cdef
         self.pc = parsed(cdef)
 
+    def matches(self, I, fn, args, kwargs):
+        """Const-shaped parameters select among several contracts of one target."""
+        node = func_ast(fn)[0]
+        names = [a.arg for a in node.args.posonlyargs + node.args.args]
+        bound = dict(zip(names, args))
+        bound.update(kwargs)
+        for nm, sh in self.pc.params:
+            if sh is not None and sh.kind == 'const' and nm in bound:
+                v = bound[nm]
+                if v is not sh.kw['value'] and not (isinstance(v, (int, str, bytes)) and v == sh.kw['value']):
+                    return False
+            if sh is not None and sh.kind == 'obj' and nm in bound:
+                t = I.pytype(bound[nm])
+                want = sh.kw['cls']
+                if isinstance(want, type) and isinstance(t, type) and not issubclass(t, want):
+                    return False
+        return True
+
     def __call__(self, I, fn, args, kwargs):
         pc = self.pc
         node = func_ast(fn)[0]
         env = I.bind_args(node.args, list(fn.__defaults__ or ()), dict(fn.__kwdefaults__ or {}),
                           args, kwargs, fn.__name__)
         if pc.ghosts:
-            raise OutOfReach('contract %s has ghost parameters and cannot be used at call sites' % self.cdef.name)
+            gb = getattr(I, 'ghost_bindings', {}).get(self.cdef.name)
+            if gb is None or any(g not in gb for g in pc.ghosts):
+                raise OutOfReach('no ghost instantiation for call of %s[%s]' % (self.cdef.target, self.cdef.name))
+            I.pure += 1
+            saved_f = I.frame
+            I.frame = Frame(dict(getattr(I, 'loop_ghost', {})), I.contract_globals, parent=I.top_frame,
+                            fname='<ghost>', contract_mode=True)
+            try:
+                for g in pc.ghosts:
+                    env[g] = I.eval(gb[g])
+            finally:
+                I.frame = saved_f
+                I.pure -= 1
         I.called_contracts.add('%s[%s]' % (self.cdef.target, self.cdef.name))
         where = 'call %s' % self.cdef.target
         fr = Frame(dict(env), self.cdef.fn.__globals__, parent=None, fname='contract:' + self.cdef.name,
                    contract_mode=True)
         saved_frame, saved_entry = I.frame, I.entry_snapshot
         saved_auto = I.auto_unfold
+        I.auto_unfold = False
         I.frame = fr
         I.entry_snapshot = I.snapshot()
         I.pure += 1
@@ -394,6 +489,7 @@ def run_unit(cdef, config=None, callee_contracts=None):
     I.br.shard = config.get('shard')
     I.global_overrides = dict(config.get('globals', {}))
     I.autosplit = pc.autosplit
+    I.auto_unfold = pc.options.get('auto_unfold', True)
     I.loop_specs = {fn.__code__: pc.loops}
     I.contract_globals = cdef.fn.__globals__
     uses = {}
@@ -402,12 +498,22 @@ def run_unit(cdef, config=None, callee_contracts=None):
             cfn, _, _ = resolve_target(tgt)
         except Exception:
             continue
-        uses[cfn.__code__] = ContractUse(cds)
+        for cd1 in (cds if isinstance(cds, list) else [cds]):
+            uses.setdefault(cfn.__code__, []).append(ContractUse(cd1))
+    I.ghost_bindings = pc.ghost_bindings
 
     def lookup(f, args, kwargs):
-        if f.__code__ is fn.__code__:
+        if f.__code__ is fn.__code__ and not pc.options.get('recursive'):
             return None
-        return uses.get(f.__code__)
+        cands = uses.get(f.__code__)
+        if not cands:
+            return None
+        for u in cands:
+            if u.cdef is cdef:
+                continue
+            if u.matches(I, f, args, kwargs):
+                return u
+        return None
     I.contract_lookup = lookup
     obligations = []
     reasons = []
@@ -478,6 +584,8 @@ def run_path(I, fn, cdef, pc):
         if sh is None:
             raise OutOfReach('contract parameter %s has no shape' % nm)
         argvals[nm] = make_symbolic(I, sh, nm)
+    I.top_frame = fr0
+    I.loop_ghost = {}
     I.path_inputs = dict(argvals)
     I.entry_heap = dict(I.st.heap)
     I.exit_reached = False
